@@ -268,7 +268,8 @@ void AdjustCounts::Run(const util::stream::ChainPositions &positions) {
     // STEP 1: Output all the n-grams that changed.
     for (; lower_valid >= streams.begin() + same; --lower_valid) {
       uint64_t order_minus_1 = lower_valid - streams_begin;
-      if(actual_counts[order_minus_1] <= prune_thresholds_[order_minus_1])
+      // Do not prune </s>, like the unigram-only case above (<s> and <unk> never get here with a real count).
+      if(actual_counts[order_minus_1] <= prune_thresholds_[order_minus_1] && !(order_minus_1 == 0 && *(*lower_valid)->begin() == kEOS))
         (*lower_valid)->Value().Mark();
 
       if(!prune_words_.empty()) {
@@ -323,7 +324,7 @@ void AdjustCounts::Run(const util::stream::ChainPositions &positions) {
   // the last n-grams.
   for (NGramStream<BuildingPayload> *s = streams.begin(); s <= lower_valid; ++s) {
     uint64_t lower_count = actual_counts[(*s)->Order() - 1];
-    if(lower_count <= prune_thresholds_[(*s)->Order() - 1])
+    if(lower_count <= prune_thresholds_[(*s)->Order() - 1] && !((*s)->Order() == 1 && *(*s)->begin() == kEOS))
       (*s)->Value().Mark();
 
     if(!prune_words_.empty()) {
